@@ -185,6 +185,19 @@ def run(rep, tier, rng):
                 f'want.push(::dxrt::RecHasher::of(&(5u32 * (2 + 1)))); want.push(::dxrt::RecHasher::of(&((7u8 as u16) % (2 + 1)))); want.push(::dxrt::RecHasher::of(&1u8)); '
                 f'::dxrt::ev!("frag", "got" => ::dxrt::RecHasher::of(&x), "want" => want.join(";")); }}')
         fcases.append(C.Case(f"f{k}", code, {"what": f"{kind} {entry}"}))
+    # .. and from fragments that are not expressions with an operator: lifetime, path (as a struct-literal path), stmt, literal, block
+    for k, entry in enumerate(("attr", "derive")):
+        head = "#[::derive_ex::derive_ex(Hash)]" if entry == "attr" else "#[derive(::derive_ex::Ex)] #[derive_ex(Hash)]"
+        body = ("{ #[hash(key = { let r: &$lt str = $d; r.len() })] a: &$lt str, #[hash(key = $p { v: $d }.v)] b: u8, #[hash(key = { $s; $d * $k })] c: u8, "
+                "#[hash(key = $d + $l)] d: u8, #[hash(key = $d * $b)] e: u8 }")
+        code = ("pub struct W { pub v: u8 }\n"
+                f"macro_rules! mk {{ ($d:tt, $lt:lifetime, $p:path, $s:stmt, $k:ident, $l:literal, $b:block) => {{ {head} pub struct Ty<$lt> {body} }} }}\n"
+                "mk!($, 'a, W, let k = 3u8, k, 4, { 1 + 1 });\n"
+                'pub fn run() { let x = Ty { a: "ab", b: 7, c: 2, d: 1, e: 3 }; let mut want = ::std::vec::Vec::new(); '
+                'want.push(::dxrt::RecHasher::of(&2usize)); want.push(::dxrt::RecHasher::of(&7u8)); want.push(::dxrt::RecHasher::of(&6u8)); '
+                'want.push(::dxrt::RecHasher::of(&5u8)); want.push(::dxrt::RecHasher::of(&6u8)); '
+                '::dxrt::ev!("frag", "got" => ::dxrt::RecHasher::of(&x), "want" => want.join(";")); }')
+        fcases.append(C.Case(f"f{4 + k}", code, {"what": f"struct {entry} (lifetime/path/stmt/literal/block fragments)"}))
     _, fnotes = C.run_cases(fcases, "c06f", header=HEADER, batch_size=4)
     for n in fnotes:
         rep.inconcl(n)
